@@ -294,3 +294,13 @@ Example C07_unit_example :
   | _ => False
   end.
 Proof. exact FuncTrip.unit_example. Qed.
+
+(* BOTH SIDES for translation units that mix object declarations and function definitions (GenProg.unit_roundtrip): visit_FileAST adds
+   `;` and a newline after a Decl, nothing after a FuncDef; the text is the concatenation of the unit's tokens; parse_tokens turns them back. *)
+Theorem C07_unit_roundtrip : forall (P: Type) rp (u: list FuncTrip.edecl), Forall FuncTrip.ewf u -> Forall GenProg.egen_ok u -> Forall (GenProg.etok_ok rp) u ->
+  (forall fuel, (list_sum (map GenProg.ecost u) + 2 <= fuel)%nat -> visit unit rp fuel (FuncTrip.unit_emb rp u) Z0 = GOk (GenProg.utext rp u, Z0)) /\
+  despace2 (GenProg.utext rp u) = spell (FuncTrip.unit_toks rp u) /\
+  (forall items le eof file, Spell P le (FuncTrip.unit_toks rp u) -> UpR P [[]] items le -> List.length items = List.length le ->
+   exists f0 N s', (forall fu, (f0 <= fu)%nat -> parse_tokens P fu (init_pstate P items eof file) = Ok (N, s')) /\ strip N = FuncTrip.unit_emb rp u).
+Proof. exact GenProg.unit_roundtrip. Qed.
+Print Assumptions C07_unit_roundtrip.
